@@ -170,6 +170,12 @@ def norm_connect_order(op, out):
         vals = sorted(out[i][1] for i in idx)
         for i, v_ in zip(idx, vals):
             out[i] = ['send', v_]
+        if op['outcome'][0] == 'refuse':
+            # transport refused: connect_error runs once per derived namespace, in the set's order
+            idx = [i for i, t in enumerate(out) if t[0] == 'invoke']
+            vals = sorted((out[i] for i in idx), key=repr)
+            for i, v_ in zip(idx, vals):
+                out[i] = v_
     return out
 
 
@@ -1220,7 +1226,11 @@ class Oracle:
             exp = []
             for n in nss:
                 exp += expect_invoke(self.reg, n, 'connect_error', [arg])
-            if res != ['exc', 'ConnectionError'] or invokes(top) != exp or sent_packets(top):
+            got = invokes(top)
+            if op.get('default'):
+                # namespaces=None: the list is derived from a set, its order is unspecified
+                got, exp = sorted(got, key=repr), sorted(exp, key=repr)
+            if res != ['exc', 'ConnectionError'] or got != exp or sent_packets(top):
                 self.bad('C08.wait_all', 'refused transport: %r, invocations %r (required %r)' % (res, invokes(top), exp))
             return
         v.up = True
